@@ -26,9 +26,11 @@ import (
 
 var localStructArrayCache = map[*ssa.Alloc]int{}
 
-// localStructArray: al is a local array of structs only accessed through
-// constant-index element addresses (field stores and loads) and whole loads:
-// its length and element struct type.
+// localStructArray: al is a local array only accessed through constant-index
+// element addresses and whole loads: its length and, for an array of structs
+// (accessed through field stores and loads of its elements), the element struct
+// type; for any other element type (function values, slices, …: elements stored
+// and loaded as a whole) the struct type is nil.
 func localStructArray(al *ssa.Alloc) (int64, *types.Struct, bool) {
 	pt, ok := al.Type().Underlying().(*types.Pointer)
 	if !ok {
@@ -38,9 +40,15 @@ func localStructArray(al *ssa.Alloc) (int64, *types.Struct, bool) {
 	if !ok || at.Len() <= 0 || at.Len() > 16 {
 		return 0, nil, false
 	}
-	stt, ok := at.Elem().Underlying().(*types.Struct)
-	if !ok || stt.NumFields() == 0 || stt.NumFields() > 8 {
+	stt, isStruct := at.Elem().Underlying().(*types.Struct)
+	if isStruct && (stt.NumFields() == 0 || stt.NumFields() > 8) {
 		return 0, nil, false
+	}
+	if !isStruct {
+		stt = nil
+		if b, isB := at.Elem().Underlying().(*types.Basic); isB && b.Info()&types.IsInteger != 0 {
+			return 0, nil, false // arrays of octets are symbolic byte sequences (pxbytes.go)
+		}
 	}
 	if v, known := localStructArrayCache[al]; known {
 		return at.Len(), stt, v == 1
@@ -58,11 +66,26 @@ func localStructArray(al *ssa.Alloc) (int64, *types.Struct, bool) {
 					break refs
 				}
 				for _, r2 := range *x.Referrers() {
+					if _, isDbg := r2.(*ssa.DebugRef); isDbg {
+						continue
+					}
+					if stt == nil {
+						// the element as a whole: stored or loaded
+						switch y := r2.(type) {
+						case *ssa.UnOp:
+						case *ssa.Store:
+							if y.Addr != ssa.Value(x) {
+								simple = false
+								break refs
+							}
+						default:
+							simple = false
+							break refs
+						}
+						continue
+					}
 					fa, ok := r2.(*ssa.FieldAddr)
 					if !ok || fa.Referrers() == nil {
-						if _, isDbg := r2.(*ssa.DebugRef); isDbg {
-							continue
-						}
 						simple = false
 						break refs
 					}
@@ -112,7 +135,7 @@ func (p *PX) localArrayElemField(addr ssa.Value, fr *pxFrame) (string, bool) {
 	if !ok {
 		return "", false
 	}
-	if _, _, simple := localStructArray(al); !simple {
+	if _, stt, simple := localStructArray(al); !simple || stt == nil {
 		return "", false
 	}
 	c, ok := ia.Index.(*ssa.Const)
@@ -156,6 +179,20 @@ func (p *PX) localArrayValue(al *ssa.Alloc, fr *pxFrame, st *pxState) *Term {
 	var elems []*Term
 	var ekeys []string
 	for i := int64(0); i < n; i++ {
+		if stt == nil {
+			// an element stored as a whole: the cell the Store case of px.go keeps under the
+			// element's address term; never stored = the zero value of the element type
+			e, ok := st.vals[fmt.Sprintf("mem:idx(%s,%d)", p.term(al, fr, st).key, i)]
+			if !ok {
+				e = zeroOf(at.Elem())
+				if e == nil {
+					e = &Term{K: TLeaf, T: at.Elem(), key: "zero:" + types.TypeString(at.Elem(), nil)}
+				}
+			}
+			elems = append(elems, e)
+			ekeys = append(ekeys, e.key)
+			continue
+		}
 		var args []*Term
 		var keys []string
 		for f := 0; f < stt.NumFields(); f++ {
@@ -208,4 +245,34 @@ func (w *World) literalLoopHead(e pxEvent) bool {
 		}
 	}
 	return false
+}
+
+// prefixOfLocalArray: x is `arr[:k]` of a local array that is not an octet
+// buffer (`for _, part := range head[:parts]`): the same cells as the array,
+// k of them.  Its term is prefix(array, k): element addresses are those of the
+// array (px.go IndexAddr), its length is k (px.go len).
+func prefixOfLocalArray(x *ssa.Slice) (*ssa.Alloc, bool) {
+	if x.Low != nil || x.Max != nil || x.High == nil {
+		return nil, false
+	}
+	al, ok := x.X.(*ssa.Alloc)
+	if !ok {
+		return nil, false
+	}
+	if _, isBytes := isByteArrayPtr(al.Type()); isBytes {
+		return nil, false
+	}
+	if _, ok := localArrayLen(al); !ok {
+		return nil, false
+	}
+	return al, true
+}
+
+func (p *PX) prefixTerm(x *ssa.Slice, al *ssa.Alloc, fr *pxFrame, st *pxState) *Term {
+	a, k := p.term(al, fr, st), p.term(x.High, fr, st)
+	return &Term{K: TPure, Name: "prefix", Args: []*Term{a, k}, V: x, T: x.Type(), key: "prefix(" + a.key + "," + k.key + ")"}
+}
+
+func isPrefixTerm(a *Term) bool {
+	return a != nil && a.K == TPure && a.Name == "prefix" && len(a.Args) == 2
 }
